@@ -416,6 +416,7 @@ class Solver(object):
                     self.inactive.append(v)
                 else:
                     self.bs.merge(v)
+            v = self.mostViolated()
 
     def solve(self):
         self.satisfy()
